@@ -8,6 +8,8 @@ length, overlap, record length and per-setup gain vector the merged matrix of `f
         roving block = that setup's roving-to-reference transmissibility applied to that mean,
   (iii) scaling one setup changes only the mean reference block (by (g^2-1)/n_setup times that setup's block); the
         transmissibilities read back from the merged matrix stay what they were.
+(ii) and (iii) are also walked with the setups cut from DIFFERENT stretches of a longer recording (reference blocks that
+do not commute), where (i) does not apply.
 The class route (`MultiSetup_PreGER` + `FDD_MS` / `EFDD_MS` / `pLSCF_MS`, `result.{freq,Sy}`) is walked over every
 placement of the references inside each setup's channel list.
 """
@@ -27,7 +29,8 @@ LEVEL_TEXT = ("bounded-exhaustive over the stated lattice; the quantifier over a
 RULE = ("function route: one case = (channels, references, composition of roving channels into setups, estimator, nxseg, "
         "overlap, length, gain vector); class route: one case = (class, layout, placement of the references in every "
         "setup's channel list, estimator, overlap, gain vector). Non-trivial iff at least one setup has a gain != 1 or "
-        "the overlap differs from the library default 0.5 or the references are not the leading columns of every setup "
+        "the overlap differs from the library default 0.5 or the references are not the leading columns of every setup or "
+        "the setups come from different stretches of the recording "
         "(otherwise the call cannot tell forwarding/ordering faults from correct behaviour)")
 ASSUMPTIONS = [
     "fdd.SD_est is the single-setup reference estimator of the statement (decided separately by C13)",
@@ -59,6 +62,15 @@ def recording(seed, n, N):
         M = np.eye(n) + 0.5 * payload.entries(seed, f"c04/M/{n}", (n, n))
         _REC[k] = Z @ M
     return _REC[k]
+
+
+def records(seed, n, N, S, stagger):
+    """The record every setup is cut from: one simultaneous recording, or (stagger) S consecutive stretches of a longer one."""
+    if not stagger:
+        X = recording(seed, n, N)
+        return [X] * S
+    X = recording(seed, n, N * S)
+    return [X[i * N:(i + 1) * N] for i in range(S)]
 
 
 def compositions(total, parts):
@@ -97,13 +109,27 @@ def setups_of(layout):
 # the oracle
 
 def per_line_cond(G):
-    return np.array([np.linalg.cond(G[:, :, f]) for f in range(G.shape[2])])
+    return np.linalg.cond(np.moveaxis(G, 2, 0))
+
+
+def lines_matmul(A, B):
+    """C[:, :, f] = A[:, :, f] @ B[:, :, f]"""
+    return np.einsum("ijf,jkf->ikf", A, B)
+
+
+def lines_inv(G, ok):
+    """Per-line inverse on the lines flagged ok (zeros elsewhere)."""
+    out = np.zeros_like(G)
+    idx = np.flatnonzero(ok)
+    if idx.size:
+        out[:, :, idx] = np.moveaxis(np.linalg.inv(np.moveaxis(G[:, :, idx], 2, 0)), 0, 2)
+    return out
 
 
 class Expect:
     """Everything the statement says about the merged matrix, computed from the known recording with SD_est."""
 
-    def __init__(self, X, layout, gains, nxseg, pov, method):
+    def __init__(self, Xs, layout, gains, nxseg, pov, method):
         n, k, comp = layout
         self.k = k
         dt = 1.0 / FS
@@ -111,7 +137,7 @@ class Expect:
         self.rov = rov
         refs = list(range(k))
         self.blocks = []        # per setup: (G_rr, G_mr) from the scaled setup data
-        for g, mv in zip(gains, rov):
+        for g, mv, X in zip(gains, rov, Xs):
             Yr = g * X[:, refs].T
             Ym = g * X[:, mv].T
             f, G = sd_est(np.vstack([Yr, Ym]), Yr, dt, nxseg, method, pov)
@@ -125,19 +151,11 @@ class Expect:
             ok &= per_line_cond(Grr) <= COND_MAX
         ok[0] = False
         self.judged = ok
-        for Grr, Gmr in self.blocks:
-            Ti = np.zeros_like(Gmr)
-            for fidx in np.flatnonzero(ok):
-                Ti[:, :, fidx] = Gmr[:, :, fidx] @ np.linalg.inv(Grr[:, :, fidx])
-            self.T.append(Ti)
-        rows = [self.mean]
-        for Ti in self.T:
-            Bi = np.zeros_like(Ti)
-            for fidx in np.flatnonzero(ok):
-                Bi[:, :, fidx] = Ti[:, :, fidx] @ self.mean[:, :, fidx]
-            rows.append(Bi)
+        self.T = [lines_matmul(Gmr, lines_inv(Grr, ok)) for Grr, Gmr in self.blocks]
+        rows = [self.mean] + [lines_matmul(Ti, self.mean) for Ti in self.T]
         self.Sy = np.concatenate(rows, axis=0)
-        if all(g == 1.0 for g in gains):
+        X = Xs[0]
+        if all(g == 1.0 for g in gains) and all(Xi is X for Xi in Xs):
             order = refs + [c for mv in rov for c in mv]
             _, self.single = sd_est(X[:, order].T, X[:, refs].T, dt, nxseg, method, pov)
         else:
@@ -146,16 +164,16 @@ class Expect:
 
 def line_err(A, B, judged):
     """Largest per-line deviation relative to the largest entry of B at that line, over the judged lines."""
-    worst = 0.0
-    for f in np.flatnonzero(judged):
-        s = float(np.max(np.abs(B[:, :, f])))
-        e = float(np.max(np.abs(A[:, :, f] - B[:, :, f]))) / (s if s > 0 else 1.0)
-        if not e <= worst:
-            worst = e
-    return worst
+    idx = np.flatnonzero(judged)
+    if not idx.size:
+        return 0.0
+    sc = np.max(np.abs(B[:, :, idx]), axis=(0, 1))
+    sc = np.where(sc > 0, sc, 1.0)
+    e = np.max(np.abs(A[:, :, idx] - B[:, :, idx]), axis=(0, 1)) / sc
+    return float("nan") if np.any(np.isnan(e)) else float(np.max(e))
 
 
-def judge(t, route, case, cfgtxt, freq, Sy, ex, X, layout, gains, nxseg, pov, method, base=None):
+def judge(t, route, case, cfgtxt, freq, Sy, ex, Xs, layout, gains, nxseg, pov, method, base=None):
     """Judge one merged matrix. `base` = (Sy of the same configuration with all gains 1, its Expect) for relation (iii)."""
     n, k, comp = layout
     nf = nxseg // 2 + 1
@@ -174,29 +192,23 @@ def judge(t, route, case, cfgtxt, freq, Sy, ex, X, layout, gains, nxseg, pov, me
     if nj == 0:
         t.skipped_by_guard += 1
         return False
-    good = True
+    fails = []          # (class key, message) of every relation of the statement that does not hold
     if ex.single is not None:
         e = line_err(Sy, ex.single, ex.judged)
         t.err(f"single-setup:{method}", e)
         if not e <= TOL:
-            good = False
-            how = ""
-            if pov != 0.5:
-                _, alt = sd_est(X[:, list(range(k)) + [c for mv in ex.rov for c in mv]].T, X[:, :k].T, 1.0 / FS, nxseg, method, 0.5)
-                if line_err(Sy, alt, ex.judged) <= TOL:
-                    how = " - it equals the estimate with overlap 0.5 instead: the overlap setting is not used"
-            t.violation(f"{route}:not-single-setup-matrix:{method}",
-                        f"{route} {method} pov={pov}: merged matrix of setups cut from one recording differs from SD_est(all sensors, references) "
-                        f"by {e:.3g} of the largest entry of a line{how}; {cfgtxt}", case)
+            fails.append((f"{route}:not-single-setup-matrix:{method}",
+                          f"{route} {method} pov={pov}: merged matrix of setups cut from one recording differs from SD_est(all sensors, "
+                          f"references) by {e:.3g} of the largest entry of a line; {cfgtxt}"))
         else:
             t.outcomes[f"single-setup-equal:{method}"] += 1
     # (ii) general relation
     e_ref = line_err(Sy[:k], ex.mean, ex.judged)
     t.err(f"mean-reference-block:{method}", e_ref)
     if not e_ref <= TOL:
-        good = False
-        t.violation(f"{route}:reference-block-not-mean:{method}",
-                    f"{route} {method}: the reference block differs from the mean over setups of the per-setup reference blocks by {e_ref:.3g}; gains {gains}; {cfgtxt}", case)
+        fails.append((f"{route}:reference-block-not-mean:{method}",
+                      f"{route} {method}: the reference block differs from the mean over setups of the per-setup reference blocks by "
+                      f"{e_ref:.3g}; gains {gains}; {cfgtxt}"))
     r0 = k
     for i, mv in enumerate(ex.rov):
         blk = Sy[r0:r0 + len(mv)]
@@ -204,19 +216,28 @@ def judge(t, route, case, cfgtxt, freq, Sy, ex, X, layout, gains, nxseg, pov, me
         e = line_err(blk, want, ex.judged)
         t.err(f"roving-block:{method}", e)
         if not e <= TOL:
-            good = False
             how = ""
             # diagnose common faults for the message only
-            alt = np.zeros_like(want)
-            for f in np.flatnonzero(ex.judged):
-                alt[:, :, f] = ex.blocks[i][1][:, :, f] @ ex.blocks[i][0][:, :, f] @ ex.mean[:, :, f]
+            alt = lines_matmul(lines_matmul(ex.blocks[i][1], ex.blocks[i][0]), ex.mean)
             if line_err(blk, alt, ex.judged) <= TOL:
                 how = " (it equals G_mov,ref G_ref,ref mean: the inverse is missing)"
-            t.violation(f"{route}:roving-block:{method}",
-                        f"{route} {method}: roving block of setup {i} differs from its transmissibility G_mov,ref G_ref,ref^-1 applied to the mean "
-                        f"reference block by {e:.3g}{how}; gains {gains}; {cfgtxt}", case)
+            fails.append((f"{route}:roving-block:{method}",
+                          f"{route} {method}: roving block of setup {i} differs from its transmissibility G_mov,ref G_ref,ref^-1 applied to the "
+                          f"mean reference block by {e:.3g}{how}; gains {gains}; {cfgtxt}"))
             break
         r0 += len(mv)
+    if fails and pov != 0.5:
+        # one cause, one class: the whole matrix is what the statement prescribes for overlap 0.5
+        alt = Expect(Xs, layout, gains, nxseg, 0.5, method)
+        if line_err(Sy, alt.Sy, ex.judged & alt.judged) <= TOL:
+            worst = line_err(Sy, ex.Sy, ex.judged)
+            dev = float(np.max(np.abs(Sy[:, :, ex.judged] - ex.Sy[:, :, ex.judged])) / np.max(np.abs(ex.Sy[:, :, ex.judged])))
+            fails = [(f"{route}:overlap-not-used:{method}",
+                      f"{route} {method} pov={pov}: the merged matrix is the one for overlap 0.5 - the overlap setting is not used "
+                      f"(deviation {dev:.3g} of the largest entry, {worst:.3g} of the largest entry of a line); gains {gains}; {cfgtxt}")]
+    for key, msg in fails:
+        t.violation(key, msg, case)
+    good = not fails
     # (iii) relative to the un-scaled run
     if base is not None and good:
         Sy1, ex1 = base
@@ -232,12 +253,13 @@ def judge(t, route, case, cfgtxt, freq, Sy, ex, X, layout, gains, nxseg, pov, me
                         f"reference block; deviation {e:.3g}; {cfgtxt}", case)
         worstT = 0.0
         r0 = k
+        inv_g, inv_1 = lines_inv(Sy[:k], jj), lines_inv(Sy1[:k], jj)
         for i, mv in enumerate(ex.rov):
-            for f in np.flatnonzero(jj):
-                Tg = Sy[r0:r0 + len(mv), :, f] @ np.linalg.inv(Sy[:k, :, f])
-                T1 = Sy1[r0:r0 + len(mv), :, f] @ np.linalg.inv(Sy1[:k, :, f])
-                s = float(np.max(np.abs(T1))) or 1.0
-                worstT = max(worstT, float(np.max(np.abs(Tg - T1))) / s)
+            Tg = lines_matmul(Sy[r0:r0 + len(mv)], inv_g)
+            T1 = lines_matmul(Sy1[r0:r0 + len(mv)], inv_1)
+            e = line_err(Tg, T1, jj)
+            if not e <= worstT:
+                worstT = e
             r0 += len(mv)
         t.err(f"gain:transmissibility-change:{method}", worstT)
         if not worstT <= 1e-6:
@@ -252,23 +274,26 @@ def judge(t, route, case, cfgtxt, freq, Sy, ex, X, layout, gains, nxseg, pov, me
     return good
 
 
-def build_Y(X, layout, gains):
+def build_Y(Xs, layout, gains):
     k = layout[1]
-    return [{"ref": g * X[:, :k].T.copy(), "mov": g * X[:, mv].T.copy()} for g, mv in zip(gains, setups_of(layout))]
+    return [{"ref": g * X[:, :k].T.copy(), "mov": g * X[:, mv].T.copy()} for g, mv, X in zip(gains, setups_of(layout), Xs)]
 
 
-def gain_vectors(S, thorough):
-    allv = list(itertools.product(GAINS, repeat=S))
-    if S <= 3:
-        return allv
-    # 4 setups: all-ones, every single-setup scaling, every pair of different scalings on the first/last setup
+def gain_vectors(S, walk):
+    """'full': the product gains^setups (<= 3 setups; 4 setups fall back to 'reduced'); 'reduced': all ones, every
+    single-setup scaling, three mixed vectors; 'two': all ones and one mixed vector. All ones always comes first."""
+    if walk == "full" and S <= 3:
+        return sorted(itertools.product(GAINS, repeat=S), key=lambda v: v != (1.0,) * S)
     out = [(1.0,) * S]
     for i in range(S):
         for g in GAINS[1:]:
             v = [1.0] * S
             v[i] = g
             out.append(tuple(v))
-    out += [(3.0, 1.0, 1.0, 1e-3), (1e-3, 3.0, 3.0, 1.0), (3.0,) * S, (1e-3,) * S]
+    out += [tuple(GAINS[(i + 1) % 3] for i in range(S)), tuple(GAINS[(2 * i + 2) % 3] for i in range(S)), (3.0,) * S]
+    out = [v for i, v in enumerate(out) if v not in out[:i]]
+    if walk == "two":
+        return [out[0], out[-3]]
     return out
 
 
@@ -280,17 +305,23 @@ def func_item(item):
     from pyoma2.functions import fdd
 
     seed, thorough, cfg = item
-    idx, layout, method, nxseg, pov, nseg = cfg
+    idx, layout, method, nxseg, pov, nseg, walk = cfg
     n, k, comp = layout
     t = Tally()
     N = int(round(nseg * nxseg))
-    X = recording(seed, n, N)
-    base = None
-    for gi, gains in enumerate(gain_vectors(len(comp), thorough)):
+    S = len(comp)
+    variants = [(g, False) for g in gain_vectors(S, walk)]
+    if walk != "two":
+        # setups cut from different stretches of a longer recording: only the general relations (ii), (iii) apply
+        variants += [(g, True) for g in gain_vectors(S, "two")]
+    base = {}
+    for gi, (gains, stagger) in enumerate(variants):
+        Xs = records(seed, n, N, S, stagger)
         t.states += 1
-        case = {"part": "func", "cfg": [idx, list(layout[:2]) + [list(comp)], method, nxseg, pov, nseg], "gains": list(gains), "seed": seed}
-        cfgtxt = f"n={n} refs={k} roving per setup={list(comp)} nxseg={nxseg} segments={nseg}"
-        Y = build_Y(X, layout, gains)
+        case = {"part": "func", "cfg": [idx, list(layout[:2]) + [list(comp)], method, nxseg, pov, nseg, walk], "gains": list(gains),
+                "staggered": stagger, "seed": seed}
+        cfgtxt = f"n={n} refs={k} roving per setup={list(comp)} nxseg={nxseg} segments={nseg}" + (" (setups from different stretches)" if stagger else "")
+        Y = build_Y(Xs, layout, gains)
         try:
             freq, Sy = fdd.SD_PreGER(Y, FS, nxseg=nxseg, pov=pov, method=method)
         except Exception as e:
@@ -299,15 +330,18 @@ def func_item(item):
             continue
         t.evaluations += 1
         t.transitions += 1
-        if any(g != 1.0 for g in gains) or pov != 0.5:
+        if any(g != 1.0 for g in gains) or pov != 0.5 or stagger:
             t.nontrivial.add(("F", idx, gi))
-        ex = Expect(X, layout, gains, nxseg, pov, method)
-        ok = judge(t, "SD_PreGER", case, cfgtxt, freq, Sy, ex, X, layout, gains, nxseg, pov, method, base=base)
-        if gi == 0:
-            base = (np.asarray(Sy), ex) if ok else None
-        if idx % 211 == 0 and gi in (0, 5):
+        ex = Expect(Xs, layout, gains, nxseg, pov, method)
+        ok = judge(t, "SD_PreGER", case, cfgtxt, freq, Sy, ex, Xs, layout, gains, nxseg, pov, method, base=base.get(stagger))
+        if all(g == 1.0 for g in gains) and ok:
+            base[stagger] = (np.asarray(Sy), ex)
+        if ok and stagger:
+            t.outcomes[f"general-relations-hold-on-different-records:{method}"] += 1
+        if idx % 211 == 0 and gi in (0, 5, len(variants) - 1):
             t.sample({"part": "func", "layout": {"channels": n, "references": k, "roving_per_setup": list(comp)}, "method": method,
-                      "nxseg": nxseg, "pov": pov, "segments": nseg, "gains": list(gains), "lines_judged": int(np.sum(ex.judged)), "holds": bool(ok)})
+                      "nxseg": nxseg, "pov": pov, "segments": nseg, "gains": list(gains), "setups_from_different_stretches": stagger,
+                      "lines_judged": int(np.sum(ex.judged)), "holds": bool(ok)})
     return t
 
 
@@ -366,14 +400,15 @@ def class_item(item):
     n, k, comp = layout
     t = Tally()
     N = int(round(nseg * nxseg))
-    X = recording(seed, n, N)
     S = len(comp)
-    gvs = [(1.0,) * S, tuple(GAINS[(i + 1) % 3] for i in range(S))]
+    mixed = tuple(GAINS[(i + 1) % 3] for i in range(S))
+    gvs = [((1.0,) * S, False), (mixed, False)] + ([(mixed, True)] if k >= 2 else [])
     lead = all(list(p) == list(range(k)) for p in place)
-    for gains in gvs:
-        ex = Expect(X, layout, gains, nxseg, pov, method)
+    for gains, stagger in gvs:
+        Xs = records(seed, n, N, S, stagger)
+        ex = Expect(Xs, layout, gains, nxseg, pov, method)
         datasets = []
-        for g, mv, p in zip(gains, setups_of(layout), place):
+        for g, mv, p, X in zip(gains, setups_of(layout), place, Xs):
             n_ch = k + len(mv)
             cols = [None] * n_ch
             for j, pos in enumerate(p):
@@ -386,7 +421,7 @@ def class_item(item):
         for cls in CLASSES:
             t.states += 1
             case = {"part": "class", "cfg": [idx, list(layout[:2]) + [list(comp)], [list(p) for p in place], method, nxseg, pov, nseg],
-                    "gains": list(gains), "class": cls, "seed": seed}
+                    "gains": list(gains), "staggered": stagger, "class": cls, "seed": seed}
             cfgtxt = f"{cls} n={n} refs={k} roving per setup={list(comp)} ref_ind={[list(p) for p in place]} nxseg={nxseg} segments={nseg}"
             kw = dict(name="a", nxseg=nxseg, method_SD=method, pov=pov)
             if cls == "pLSCF_MS":
@@ -404,8 +439,8 @@ def class_item(item):
             t.evaluations += 1
             t.transitions += 1
             if any(g != 1.0 for g in gains) or pov != 0.5 or not lead:
-                t.nontrivial.add(("C", idx, cls, gains))
-            ok = judge(t, cls, case, cfgtxt, freq, Sy, ex, X, layout, gains, nxseg, pov, method)
+                t.nontrivial.add(("C", idx, cls, gains, stagger))
+            ok = judge(t, cls, case, cfgtxt, freq, Sy, ex, Xs, layout, gains, nxseg, pov, method)
             if ok:
                 t.outcomes[f"class-ok:{cls}"] += 1
             if idx % 397 == 0 and cls == "FDD_MS":
@@ -420,27 +455,48 @@ POVS = (0.0, 0.25, 0.5, 0.75)
 
 
 def func_lattice(thorough):
+    """(index, layout, method, nxseg, pov, length in segments, gain walk).
+    quick: every quick layout x everything; the whole gain walk on the 4-segment records.
+    thorough: every layout (3..9 channels, 1..3 references, 2..4 setups) x method x overlap at (nxseg 64, 4 segments) with
+    the full gain product; the other (nxseg, length) combinations on the layouts of <= 6 channels with the reduced gain walk;
+    nxseg 2048 on <= 5 channels."""
     out = []
     for layout in layouts(thorough):
         for method in ("per", "cor"):
-            for nxseg in ((64, 128, 256, 2048) if thorough else (64, 128)):
-                for pov in POVS:
+            for pov in POVS:
+                for nxseg in ((64, 128, 256, 2048) if thorough else (64, 128)):
                     for nseg in (4, 6.5):
-                        if nxseg == 2048 and (layout[0] > 6 or len(layout[2]) > 3):
+                        if not thorough:
+                            walk = "reduced" if nseg == 4 else "two"
+                        elif (nxseg, nseg) == (64, 4):
+                            walk = "full"
+                        elif nxseg == 2048:
+                            if layout[0] > 5 or nseg != 4:
+                                continue
+                            walk = "two"
+                        elif layout[0] <= 6:
+                            walk = "reduced"
+                        else:
                             continue
-                        out.append((len(out), layout, method, nxseg, pov, nseg))
+                        out.append((len(out), layout, method, nxseg, pov, nseg, walk))
     return out
 
 
 def class_lattice(thorough):
     out = []
+    all8 = [(m, p) for m in ("per", "cor") for p in POVS]
     for layout in layouts(thorough):
         if thorough and layout[0] > 7:
             continue
-        for place in placement_sets(layout, thorough):
-            for method in ("per", "cor"):
-                for pov in ((0.0, 0.25, 0.5, 0.75) if thorough else (0.25, 0.5)):
-                    out.append((len(out), layout, place, method, 64, pov, 4.5))
+        for pi, place in enumerate(placement_sets(layout, thorough)):
+            if thorough:
+                combos = all8 if pi == 0 else [all8[(3 * pi) % 8], all8[(3 * pi + 4) % 8]]
+            elif pi == 0:
+                combos = [("per", 0.25), ("per", 0.5), ("cor", 0.25), ("cor", 0.5)]
+            else:
+                combos = [("per", 0.25), ("cor", 0.5)]
+            for method, pov in combos:
+                out.append((len(out), layout, place, method, 64, pov, 4.5))
     return out
 
 
@@ -453,23 +509,31 @@ def explore(ctx):
                     "setups": sorted({len(l[2]) for l in lay}), "what": "every composition of the roving channels into setups of >= 1 channel"},
         "function_route": {"items": len(F), "methods": ["per", "cor"], "nxseg": sorted({c[3] for c in F}), "pov": list(POVS),
                            "length_in_segments": [4, 6.5], "gains": list(GAINS),
-                           "gain_vectors": "gains^setups (4 setups: all-ones, every single scaling, 4 mixed vectors)"},
-        "class_route": {"items": len(C), "classes": list(CLASSES), "methods": ["per", "cor"], "nxseg": [64], "pov": sorted({c[5] for c in C}),
-                        "length_in_segments": [4.5], "gain_vectors": ["all ones", "(3, 1e-3, 1, ...)"],
+                           "note": func_lattice.__doc__,
+                           "different_records": "items with the full/reduced gain walk are repeated with the setups cut from consecutive stretches of a "
+                                                "longer recording (all ones + one mixed gain vector): relations (ii) and (iii) only",
+                           "gain_walks": {"full": "gains^setups (<= 3 setups)", "reduced(3 setups)": [list(v) for v in gain_vectors(3, "reduced")],
+                                          "two(3 setups)": [list(v) for v in gain_vectors(3, "two")]},
+                           "walk_by_item": {w: sum(1 for c in F if c[6] == w) for w in ("full", "reduced", "two")}},
+        "class_route": {"items": len(C), "classes": list(CLASSES), "nxseg": [64], "method_x_pov": sorted({(c[3], c[5]) for c in C}),
+                        "length_in_segments": [4.5], "variants": ["all ones", "gains (3, 1e-3, 1, ...)", "same gains, setups cut from different stretches of a longer recording (>= 2 references)"],
                         "placements": "full product of all ordered placements when every setup has <= 4 channels and the product is <= "
                                       + ("300" if ctx.thorough else "40") + "; else a covering set (leading, trailing, trailing reversed, "
                                       "spread, rotated over the setups) plus every arrangement of each <=4-channel setup once"},
         "fs": FS,
     }
     for c in F:
-        recording(ctx.seed, c[1][0], int(round(c[5] * c[3])))
+        for st in (False, True):
+            records(ctx.seed, c[1][0], int(round(c[5] * c[3])), len(c[1][2]), st)
     for c in C:
-        recording(ctx.seed, c[1][0], int(round(c[6] * c[4])))
-    ctx.pmap(func_item, [(ctx.seed, ctx.thorough, c) for c in sorted(F, key=lambda c: -c[3] * c[5] * len(GAINS) ** len(c[1][2]))], chunksize=2)
+        for st in (False, True):
+            records(ctx.seed, c[1][0], int(round(c[6] * c[4])), len(c[1][2]), st)
+    ctx.pmap(func_item, [(ctx.seed, ctx.thorough, c) for c in sorted(F, key=lambda c: -c[3] * c[5] * len(gain_vectors(len(c[1][2]), c[6])))], chunksize=2)
     ctx.pmap(class_item, [(ctx.seed, ctx.thorough, c) for c in C], chunksize=4)
     ctx.require("single-setup-equal:per", "single-setup-equal:cor", "relations-hold:per", "relations-hold:cor",
                 "gain-only-changes-mean-reference-block:per", "gain-only-changes-mean-reference-block:cor",
-                "class-ok:FDD_MS", "class-ok:EFDD_MS", "class-ok:pLSCF_MS")
+                "class-ok:FDD_MS", "class-ok:EFDD_MS", "class-ok:pLSCF_MS",
+                "general-relations-hold-on-different-records:per", "general-relations-hold-on-different-records:cor")
 
 
 def _layout(l):
@@ -480,8 +544,8 @@ def replay(case):
     cfg = case["cfg"]
     seed = case["seed"]
     if case["part"] == "func":
-        idx, lay, method, nxseg, pov, nseg = cfg
-        t = func_item((seed, True, (idx, _layout(lay), method, nxseg, pov, nseg)))
+        idx, lay, method, nxseg, pov, nseg, walk = cfg
+        t = func_item((seed, True, (idx, _layout(lay), method, nxseg, pov, nseg, walk)))
     else:
         idx, lay, place, method, nxseg, pov, nseg = cfg
         t = class_item((seed, True, (idx, _layout(lay), [list(p) for p in place], method, nxseg, pov, nseg)))
